@@ -461,7 +461,16 @@ def line_labels():
 class Sched:
     """Runs callables in real threads, one traced line of `_perform_transition` at a time, in the order given by `schedule`."""
 
-    GRANT_TIMEOUT = 0.25   # a granted thread that does not reach its next line within this time is blocked (a lock): go on
+    # A granted thread that does not reach its next switch point is *blocked* (only possible if somebody added a lock to the engine).
+    # "Did not come back in time" must not be mistaken for that on a loaded machine: the first stall of the process gets a long
+    # bound; only after one stall has been seen (locks exist) the bound shrinks to a large multiple of the slowest step observed.
+    FIRST_STALL = 20.0
+    stall_seen = False
+    max_latency = 0.0
+
+    @classmethod
+    def grant_timeout(cls):
+        return cls.FIRST_STALL if not cls.stall_seen else max(1.0, 200 * cls.max_latency)
 
     def __init__(self, schedule, labels):
         self.schedule = list(schedule)
@@ -493,7 +502,7 @@ class Sched:
         with self.cv:
             self.waiting[tid] = label
             self.cv.notify_all()
-            deadline = time.time() + 30
+            deadline = time.time() + 180
             while self.turn != tid:
                 if not self.cv.wait(1.0) and time.time() > deadline:
                     self.stuck = True
@@ -522,13 +531,15 @@ class Sched:
 
         def grant(tid):
             with self.cv:
-                end = time.time() + self.GRANT_TIMEOUT
+                t_start = time.time()
+                end = t_start + self.grant_timeout()
                 if tid in blocked and tid not in self.waiting and tid not in self.done:
                     return False  # still blocked: do not wait for it again
                 blocked.discard(tid)
                 while tid not in self.waiting and tid not in self.done:
                     if not self.cv.wait(max(0.0, end - time.time())) and time.time() >= end:
                         blocked.add(tid)
+                        Sched.stall_seen = True
                         return False  # blocked (e.g. on a lock): skip
                 if tid in self.done:
                     return True
@@ -537,17 +548,20 @@ class Sched:
                 self.cv.notify_all()
                 while len(self.trace) == n and tid not in self.done:
                     if not self.cv.wait(max(0.0, end - time.time())) and time.time() >= end:
+                        Sched.stall_seen = True
                         return False
-                end = time.time() + self.GRANT_TIMEOUT
+                end = time.time() + self.grant_timeout()
                 while tid not in self.waiting and tid not in self.done:   # run on to the next switch point
                     if not self.cv.wait(max(0.0, end - time.time())) and time.time() >= end:
                         blocked.add(tid)
+                        Sched.stall_seen = True
                         return False
+                Sched.max_latency = max(Sched.max_latency, time.time() - t_start)
                 return True
         for tid in self.schedule:
             grant(tid)
         # let everyone finish, lowest id first
-        guard = time.time() + 20
+        guard = time.time() + 180
         while time.time() < guard:
             with self.cv:
                 alive = [i for i in range(len(fns)) if i not in self.done]
@@ -557,7 +571,7 @@ class Sched:
             if not any(progressed):
                 time.sleep(0.01)
         for t in ths:
-            t.join(5)
+            t.join(30)
         self.stuck = self.stuck or any(t.is_alive() for t in ths)
         return out
 
